@@ -54,7 +54,8 @@ LCase(c, sv, s, lb, tag) ==
      wire |-> HostEncode(c, sv, F), script |-> s, hasLb |-> lb]
 DispatchPairs ==
     UNION {{LCase(c, sv, s, TRUE, "dispatch-pairs") :
-               sv \in TwoAtATime(CommandTable[c].schema, F, TRUE), s \in {[ok |-> TRUE, err |-> 0], [ok |-> FALSE, err |-> 49]}}
+               sv \in TwoAtATime(CommandTable[c].schema, F, TRUE) \cup RelatedPairs(CommandTable[c].schema, F, TRUE),
+               s \in {[ok |-> TRUE, err |-> 0], [ok |-> FALSE, err |-> 49]}}
            : c \in {1, 2, 6, 10, 12}}
 DispatchTriples ==
     UNION {{LCase(c, sv, [ok |-> TRUE, err |-> 0], TRUE, "dispatch-triples") : sv \in ThreeAtATime(CommandTable[c].schema, F, TRUE)}
@@ -80,6 +81,14 @@ AnswerCases ==
             wire |-> <<ctl>> \o Pattern(7, 16), script |-> [ok |-> TRUE, err |-> 0, answer |-> k], hasLb |-> TRUE] : ctl \in U2fControlBytes, k \in 0..5}
     \cup {[op |-> "dispatch", tag |-> "handler-answer", proto |-> "ctap2", variant |-> CommandTable[c].name, wire |-> WireOf(c),
             script |-> [ok |-> TRUE, err |-> 0, answer |-> k], hasLb |-> TRUE] : c \in {6, 10, 65}, k \in 1..4}
+    \* ... for every sub-command (an answer may be "wrong" for its sub-command: an empty enumeration,
+    \* a token for getRetries -- the dispatcher is not the place that decides that)
+    \cup {[op |-> "dispatch", tag |-> "handler-answer", proto |-> "ctap2", variant |-> CommandTable[c].name,
+            wire |-> HostEncode(c, [CmReqMin EXCEPT !.subCommand = n], F),
+            script |-> [ok |-> TRUE, err |-> 0, answer |-> k], hasLb |-> TRUE] : c \in {10, 65}, n \in CmSubcommands, k \in 0..6}
+    \cup {[op |-> "dispatch", tag |-> "handler-answer", proto |-> "ctap2", variant |-> "ClientPin",
+            wire |-> HostEncode(6, [CpReqMin EXCEPT !.subCommand = n], F),
+            script |-> [ok |-> TRUE, err |-> 0, answer |-> k], hasLb |-> TRUE] : n \in PinSubcommands, k \in 0..5}
 
 MC_Cases == AnswerCases \cup Ctap2Cases \cup Ctap1Cases \cup VendorCases \cup Ctap1Constructed \cup DispatchLattice \cup DispatchPairs \cup DispatchTriples
 MC_CasesDict == DispatchDict \cup DispatchModes
